@@ -20,6 +20,7 @@ COMPONENTS = {
     "EI": {"type": "integer", "enum": [1, 2]},
     "M": {"type": "object", "required": ["v"], "properties": {"v": {"type": "integer"}}},
     "N": {"type": "object", "required": ["w"], "properties": {"w": {"type": "integer"}}},
+    "S": {"type": "object", "required": ["v"], "properties": {"v": {"type": "integer"}}, "additionalProperties": False},
 }
 
 
@@ -31,7 +32,7 @@ def leaf_schema(k: str) -> dict:
     return {"any": {}, "bool": {"type": "boolean"}, "int": {"type": "integer"}, "float": {"type": "number"}, "str": {"type": "string"},
             "date": {"type": "string", "format": "date"}, "datetime": {"type": "string", "format": "date-time"},
             "uuid": {"type": "string", "format": "uuid"}, "enums": ref("ES"), "enumi": ref("EI"), "none": {"type": "null"},
-            "modelM": ref("M"), "modelN": ref("N"), "listint": {"type": "array", "items": {"type": "integer"}},
+            "modelM": ref("M"), "modelN": ref("N"), "modelS": ref("S"), "listint": {"type": "array", "items": {"type": "integer"}},
             "listdate": {"type": "array", "items": {"type": "string", "format": "date"}},
             "listM": {"type": "array", "items": ref("M")}}[k]
 
@@ -40,6 +41,8 @@ def schema_of(d: dict) -> dict:
     """Descriptor -> property schema (OpenAPI 3.1 spelling; nullable = null member appended last)."""
     if d["kind"] == "union":
         members = [leaf_schema(k) for k in d["ms"]]
+        if d.get("nest"):
+            members = [{"oneOf": members[: d["nest"]]}] + members[d["nest"]:]
         if d["nul"] and "none" not in d["ms"]:
             members.append({"type": "null"})
         return {"oneOf": members}
@@ -85,7 +88,7 @@ def enumerate_descriptors(scratch_dir: Path, arity: int = 2, union_kinds=None):
     return tlc.run_tlc("CodecMC.tla", cfg, workers=1, extra=["-continue"], timeout=1800)
 
 
-PYMAP = {"date": "date", "datetime": "datetime", "UUID": "UUID", "Enum:ES": "EnumS", "Enum:EI": "EnumI", "Model:M": "M", "Model:N": "N",
+PYMAP = {"date": "date", "datetime": "datetime", "UUID": "UUID", "Enum:ES": "EnumS", "Enum:EI": "EnumI", "Model:M": "M", "Model:N": "N", "Model:S": "S",
          "Unset": "Unset"}
 
 
